@@ -285,6 +285,11 @@ func (valSet *ValidatorSet) VerifyCommit(chainID string, blockID BlockID, height
 			return fmt.Errorf("Invalid commit -- not precommit @ index %v", idx)
 		}
 		_, val := valSet.GetByIndex(idx)
+		// index and address are not covered by the signature: a precommit must name the
+		// validator whose slot it sits in (a stored commit is fed to VoteSet.AddVote later)
+		if precommit.ValidatorIndex != idx || !bytes.Equal(precommit.ValidatorAddress, val.Address) {
+			return fmt.Errorf("Invalid commit -- precommit in slot %v names validator %v/%X", idx, precommit.ValidatorIndex, precommit.ValidatorAddress)
+		}
 		// Validate signature
 		precommitSignBytes := SignBytes(chainID, precommit)
 		if !val.PubKey.VerifyBytes(precommitSignBytes, precommit.Signature) {
